@@ -634,6 +634,9 @@ def plan(tier, master_seed, runs=None):
 
     n = runs if runs is not None else (320 if tier == "quick" else 12000)
     jobs = [{"kind": "run", "record": generate(run_seed(master_seed, PROP, i), tier)} for i in range(n)]
+    for j in jobs:
+        if j["record"]["parent"]["numba_state"] in ("cold", "parallel_only"):
+            j["timeout"] = 900  # somebody has to compile a kernel
     # directed runs: a machine whose numba cache holds only the parallel kernel
     # (first ever use was with NUM_THREADS > 1) - the workers have to compile
     nd = 3 if tier == "quick" else 24
